@@ -226,7 +226,7 @@ def record_result(rd):
 
 
 def record(ctx):
-    n = 3000 if ctx.tier == "thorough" else 400
+    n = 12000 if ctx.tier == "thorough" else 400
     rng = np.random.RandomState(ctx.seed * 7919 + 17)
     evs = []
     for i in range(n):
@@ -237,8 +237,26 @@ def record(ctx):
     return evs
 
 
+CHUNK = 4000
+
+
 def validate(events):
-    """one TLC run over all recorded events; returns (TlcResult, {trace index (1-based): clause})"""
+    """TLC over all recorded events (one batched run per CHUNK events); returns (TlcResult, {event index (1-based): clause})"""
+    total, bad = None, {}
+    for off in range(0, max(len(events), 1), CHUNK):
+        r, b = validate_chunk(events[off:off + CHUNK])
+        bad.update({off + i: cl for i, cl in b.items()})
+        if total is None:
+            total = r
+        else:
+            total.generated += r.generated
+            total.distinct += r.distinct
+            total.wall += r.wall
+            total.violated = total.violated or r.violated
+    return total, bad
+
+
+def validate_chunk(events):
     from . import c17
     absent = {"tree": {"j": "null", "n": 0, "d": 1, "s": ""}, "tree2": {"j": "null", "n": 0, "d": 1, "s": ""},
               "back": {"t": "None", "n": 0, "d": 1, "s": ""}}  # JsonDeserialize has no null
